@@ -32,6 +32,7 @@ import (
 // CElement is an element of a linked-list
 // Traversal from a CElement are goroutine-safe.
 type CElement struct {
+	mtx     sync.RWMutex // guards prevWg/nextWg: a WaitGroup somebody may Wait on is never re-armed, it is replaced
 	prev    unsafe.Pointer
 	prevWg  *sync.WaitGroup
 	next    unsafe.Pointer
@@ -44,17 +45,16 @@ type CElement struct {
 // May return nil iff CElement was tail and got removed.
 func (e *CElement) NextWait() *CElement {
 	for {
-		e.nextWg.Wait()
-		next := e.Next()
-		if next == nil {
-			if e.Removed() {
-				return nil
-			} else {
-				continue
-			}
-		} else {
+		e.mtx.RLock()
+		wg := e.nextWg
+		e.mtx.RUnlock()
+		if next := e.Next(); next != nil {
 			return next
 		}
+		if e.Removed() {
+			return nil
+		}
+		wg.Wait()
 	}
 }
 
@@ -62,17 +62,16 @@ func (e *CElement) NextWait() *CElement {
 // May return nil iff CElement was head and got removed.
 func (e *CElement) PrevWait() *CElement {
 	for {
-		e.prevWg.Wait()
-		prev := e.Prev()
-		if prev == nil {
-			if e.Removed() {
-				return nil
-			} else {
-				continue
-			}
-		} else {
+		e.mtx.RLock()
+		wg := e.prevWg
+		e.mtx.RUnlock()
+		if prev := e.Prev(); prev != nil {
 			return prev
 		}
+		if e.Removed() {
+			return nil
+		}
+		wg.Wait()
 	}
 }
 
@@ -105,35 +104,27 @@ func (e *CElement) DetachPrev() {
 }
 
 func (e *CElement) setNextAtomic(next *CElement) {
-	for {
-		oldNext := atomic.LoadPointer(&e.next)
-		if !atomic.CompareAndSwapPointer(&(e.next), oldNext, unsafe.Pointer(next)) {
-			continue
-		}
-		if next == nil && oldNext != nil { // We for-loop in NextWait() so race is ok
-			e.nextWg.Add(1)
-		}
-		if next != nil && oldNext == nil {
-			e.nextWg.Done()
-		}
-		return
+	e.mtx.Lock()
+	oldNext := atomic.SwapPointer(&e.next, unsafe.Pointer(next))
+	if next == nil && oldNext != nil {
+		e.nextWg = waitGroup1() // waiters of the old group were released when next was set
 	}
+	if next != nil && oldNext == nil {
+		e.nextWg.Done()
+	}
+	e.mtx.Unlock()
 }
 
 func (e *CElement) setPrevAtomic(prev *CElement) {
-	for {
-		oldPrev := atomic.LoadPointer(&e.prev)
-		if !atomic.CompareAndSwapPointer(&(e.prev), oldPrev, unsafe.Pointer(prev)) {
-			continue
-		}
-		if prev == nil && oldPrev != nil { // We for-loop in PrevWait() so race is ok
-			e.prevWg.Add(1)
-		}
-		if prev != nil && oldPrev == nil {
-			e.prevWg.Done()
-		}
-		return
+	e.mtx.Lock()
+	oldPrev := atomic.SwapPointer(&e.prev, unsafe.Pointer(prev))
+	if prev == nil && oldPrev != nil {
+		e.prevWg = waitGroup1()
 	}
+	if prev != nil && oldPrev == nil {
+		e.prevWg.Done()
+	}
+	e.mtx.Unlock()
 }
 
 func (e *CElement) setRemovedAtomic() {
@@ -264,7 +255,7 @@ func (l *CList) Remove(e *CElement) interface{} {
 
 	// If we're removing the only item, make CList FrontWait/BackWait wait.
 	if l.len == 1 {
-		l.wg.Add(1)
+		l.wg = waitGroup1() // FrontWait/BackWait copy l.wg under l.mtx; the released group is not re-armed
 	}
 	l.len -= 1
 
@@ -282,12 +273,14 @@ func (l *CList) Remove(e *CElement) interface{} {
 
 	// Set .Done() on e, otherwise waiters will wait forever.
 	e.setRemovedAtomic()
+	e.mtx.RLock()
 	if prev == nil {
 		e.prevWg.Done()
 	}
 	if next == nil {
 		e.nextWg.Done()
 	}
+	e.mtx.RUnlock()
 
 	return e.Value
 }
